@@ -363,8 +363,9 @@ Example C07_empty_fixed_list_example :
 Proof. cbv zeta. split; vm_compute; reflexivity. Qed.
 
 (** ** rejects_unknown_order. The semantic layer new_projection accepts a list
-    of fields exactly when every field has one of the four order names, does
-    not combine .config with fixed, and has a key other than .unit and "" *)
+    of fields exactly when every field has one of the four orders, a fixed
+    order has at least one value, .config is not combined with fixed, and the
+    key is neither .unit nor "" *)
 Theorem C07_known_order_iff :
   forall o, known_order o = true <->
             o = bs "fixed" \/ o = bs "first" \/ o = bs "alpha" \/ o = bs "num".
@@ -376,22 +377,26 @@ Theorem C07_new_projection_ok_iff :
   new_projection is_space re_ok q = Ok l <->
   parse_projection is_space re_ok q = Ok l /\
   Forall (fun p => known_order (pf_order p) = true /\
+                   (pf_order p = ord_fixed -> pf_fixed p <> []) /\
                    (pf_key p = key_config -> pf_order p <> ord_fixed) /\
                    pf_key p <> key_unit /\ pf_key p <> []) l.
 Proof. exact new_projection_ok_iff. Qed.
 Print Assumptions C07_new_projection_ok_iff.
 
-(** "k@name": a word right after an "@", with a name that is none of the four *)
+(** "k@name": a word right after an "@" whose text is none of first, alpha,
+    num -- every unknown name, and the name fixed (the order of a
+    parenthesised list; spelled out as a name it has no values) *)
 Theorem C07_rejects_unknown_order :
   forall is_space re_ok q pre a w post,
   proj_tokens is_space re_ok q = LexOk (pre ++ a :: w :: post) ->
-  is_at a = true -> is_word (t_kind w) = true -> known_order (t_text w) = false ->
+  is_at a = true -> is_word (t_kind w) = true ->
+  ~ (t_text w = bs "first" \/ t_text w = bs "alpha" \/ t_text w = bs "num") ->
   rejected (new_projection is_space re_ok q) q.
 Proof. exact rejects_unknown_order. Qed.
 Print Assumptions C07_rejects_unknown_order.
 
 (** what the code accepts, for ALL byte strings k and name written as quoted
-    words: the syntax layer takes any name as the order ... *)
+    words: the syntax layer takes any name as the order (also "fixed") ... *)
 Theorem C07_named_order_syntax :
   forall is_space re_ok, is_space 34%N = false ->
   forall k o,
@@ -400,37 +405,64 @@ Theorem C07_named_order_syntax :
 Proof. exact projection_named_order. Qed.
 Print Assumptions C07_named_order_syntax.
 
-(** ... and the semantic layer exactly the four names (fixed not for .config) *)
+(** ... and the semantic layer exactly the three names first, alpha, num *)
 Theorem C07_named_order_accepted_iff :
   forall is_space re_ok, is_space 34%N = false ->
   forall k o,
   (exists l, new_projection is_space re_ok (cquote k ++ c_at :: cquote o) = Ok l) <->
-  known_order o = true /\ (k = key_config -> o <> ord_fixed) /\ k <> key_unit /\ k <> [].
+  (o = bs "first" \/ o = bs "alpha" \/ o = bs "num") /\ k <> key_unit /\ k <> [].
 Proof. exact new_projection_named_order_iff. Qed.
 Print Assumptions C07_named_order_accepted_iff.
 
-(** OBSERVATION: the order name "fixed" is accepted by the syntax layer and by
-    the semantic layer, and yields a fixed order with an EMPTY value list --
-    the projection that "k@()" is refused for ("nothing to match") *)
-Theorem C07_fixed_by_name_accepted :
+(** "k"@"fixed" is refused for EVERY key k, at the offset of the order name
+    (since golang/perf 9f4ec2f; found while proving this clause) *)
+Theorem C07_rejects_fixed_by_name :
   forall is_space re_ok, is_space 34%N = false ->
-  forall k, k <> [] -> k <> key_unit -> k <> key_config ->
+  forall k,
   new_projection is_space re_ok (cquote k ++ c_at :: cquote ord_fixed)
-  = Ok [mkField k ord_fixed [] 0 (S (length (cquote k)))].
-Proof. exact fixed_by_name_accepted. Qed.
-Print Assumptions C07_fixed_by_name_accepted.
+  = Err (S (length (cquote k)))
+  /\ S (length (cquote k)) <= length (cquote k ++ c_at :: cquote ord_fixed).
+Proof. exact rejects_fixed_by_name. Qed.
+Print Assumptions C07_rejects_fixed_by_name.
+
+(** hence, together with rejects_empty_fixed_list: no accepted projection has a
+    fixed order without values, however it is written *)
+Theorem C07_no_empty_fixed_list :
+  forall is_space re_ok q l p,
+  new_projection is_space re_ok q = Ok l -> In p l -> pf_order p = ord_fixed -> pf_fixed p <> [].
+Proof. exact no_empty_fixed_list. Qed.
+Print Assumptions C07_no_empty_fixed_list.
 
 Example C07_unknown_order_example :
   let sp := go_is_space in let re := fun _ : bytes => true in
   let w o s := mkTok KWord o s in let op o c := mkTok (KOp c) o [c] in
   proj_tokens sp re (bs "a@bogus") = LexOk ([w 0 (bs "a")] ++ op 1 c_at :: w 2 (bs "bogus") :: [])
-  /\ known_order (bs "bogus") = false
+  /\ ~ (bs "bogus" = bs "first" \/ bs "bogus" = bs "alpha" \/ bs "bogus" = bs "num")
   /\ parse_projection sp re (bs "a@bogus") = Ok [mkField (bs "a") (bs "bogus") [] 0 2]
   /\ new_projection sp re (bs "a@bogus") = Err 2
   /\ new_projection sp re (bs "a@num") = Ok [mkField (bs "a") (bs "num") [] 0 2]
-  /\ new_projection sp re (bs "a@fixed") = Ok [mkField (bs "a") (bs "fixed") [] 0 2]
+  /\ parse_projection sp re (bs "a@fixed") = Ok [mkField (bs "a") (bs "fixed") [] 0 2]
+  /\ new_projection sp re (bs "a@fixed") = Err 2
+  /\ new_projection sp re (bs "a@(x y)") = Ok [mkField (bs "a") (bs "fixed") [bs "x"; bs "y"] 0 2]
   /\ new_projection sp re (bs ".config@fixed") = Err 8.
-Proof. cbv zeta. repeat split; vm_compute; reflexivity. Qed.
+Proof.
+  cbv zeta. repeat split; try (vm_compute; reflexivity).
+  intros [H|[H|H]]; discriminate H.
+Qed.
+
+(** the defect that was repaired: with the semantic check as it was before
+    golang/perf 9f4ec2f ([check_field_before_fix]: no test for a fixed order
+    without values), a@fixed passed with an empty value list -- the projection
+    that a@() is refused for *)
+Example C07_fixed_by_name_was_accepted :
+  exists l p,
+    parse_projection go_is_space (fun _ => true) (bs "a@fixed") = Ok l /\ In p l
+    /\ check_field_before_fix p = None /\ pf_order p = ord_fixed /\ pf_fixed p = []
+    /\ check_field p = Some 2.
+Proof.
+  exists [mkField (bs "a") (bs "fixed") [] 0 2], (mkField (bs "a") (bs "fixed") [] 0 2).
+  repeat split; try (vm_compute; reflexivity). now left.
+Qed.
 
 (** ** rejects_unit_in_projection: some field of the parsed projection has the
     key .unit -- whatever its order, wherever it stands *)
